@@ -297,12 +297,26 @@ def _get_schema_or_none(
 
 
 def _default(f_type: Type, f_value: Any, config_cls: Type[BaseConfig]) -> Any:
+    # the default value must be rendered regardless of the options
+    # that drop or rename keys in the owner's config or its dialect
+    key_options = {
+        "omit_none": False,
+        "omit_default": False,
+        "serialize_by_alias": False,
+    }
+    dialect_cls = getattr(config_cls, "dialect", None)
+    if dialect_cls is not None:
+        dialect_cls = type("Dialect", (dialect_cls,), dict(key_options))
+
     @dataclass
     class CC(DataClassJSONMixin):
         x: f_type = f_value  # type: ignore
 
         class Config(config_cls):  # type: ignore
-            pass
+            omit_none = False
+            omit_default = False
+            serialize_by_alias = False
+            dialect = dialect_cls
 
     return CC(f_value).to_dict()["x"]
 
